@@ -46,6 +46,12 @@ theorem C02_instance_independence (tbl : Table) (alg : AtomAlg A)
     (steps : List (List String × Otype)) (i : Inst A) (h : List (List Char)) (s : List Char) :
     ((Inst.run tbl alg steps i h).solve tbl alg steps s).2 = solve tbl alg steps s := rfl
 
+/-- … also when the world changed in between: each earlier call may have run under a different
+    atom algebra (a constructor reading variables that were changed between the calls). -/
+theorem C02_history_independence_changing_atoms (tbl : Table) (steps : List (List String × Otype))
+    (st : Bufs A) (h : List (AtomAlg A × List Char)) (alg : AtomAlg A) (s : List Char) :
+    (solveI tbl alg steps (runHistoryW tbl steps st h) s).2 = solve tbl alg steps s := rfl
+
 /-- **Nested argument solving uses a fresh state.** A call's arguments are solved by ONE nested
     instance, one after the other (as in the code); the values are those that independent fresh
     instances return, whatever state the nested instance starts in -- argument k is unaffected by
